@@ -1617,7 +1617,11 @@ ATan2::ATan2(const RCP<const Basic> &num, const RCP<const Basic> &den)
 bool ATan2::is_canonical(const RCP<const Basic> &num,
                          const RCP<const Basic> &den) const
 {
-    if (eq(*num, *zero) or eq(*num, *den) or eq(*num, *mul(minus_one, den)))
+    // atan2(0, den) is 0, pi or nan according to the sign of den: it can only
+    // be evaluated (and is only non-canonical) when den is a number
+    if (eq(*num, *zero))
+        return not is_a_Number(*den);
+    if (eq(*num, *den) or eq(*num, *mul(minus_one, den)))
         return false;
     RCP<const Basic> index;
     bool b = inverse_lookup(inverse_tct(), div(num, den), outArg(index));
